@@ -168,7 +168,8 @@ type readback struct {
 	seenPtr  map[uintptr]bool // AST nodes, values, statements, side structs already visited
 	out      countWriter
 	outLimit int64 // methods that write (their cost grows with the subtree) stop being called past this
-	findLeft int   // Find calls with pool paths still allowed (the pool is ~100 paths per entry)
+	findLeft int   // entries that still get the whole Find pool (~170 paths); the others get a window of it
+	findRot  int   // where the window of the next entry starts
 	pfxLeft  int   // Find calls that leave an error on the root entry (unknown prefix) still allowed
 	calls    int64
 	side     []*yang.Entry // entries kept beside the children, still to be walked
@@ -176,13 +177,14 @@ type readback struct {
 	ytypes   []*yang.YangType // resolved types found on the AST (Type nodes)
 	seenT    map[*yang.YangType]bool
 	// inventory of this child process: label -> "called" | skip reason (reported once)
-	fresh []string
+	fresh  []string
+	byType map[string]int64 // replay only: calls per receiver type
 }
 
 var inventory = map[string]bool{} // labels already reported by this child
 
 func newReadback() *readback {
-	return &readback{plans: map[reflect.Type][]*methodPlan{}, seenPtr: map[uintptr]bool{}, seenT: map[*yang.YangType]bool{}, outLimit: 24 << 20, findLeft: 60000, pfxLeft: 300}
+	return &readback{plans: map[reflect.Type][]*methodPlan{}, seenPtr: map[uintptr]bool{}, seenT: map[*yang.YangType]bool{}, outLimit: 24 << 20, findLeft: 8, pfxLeft: 300}
 }
 
 func (rb *readback) plansOf(t reflect.Type) []*methodPlan {
@@ -295,6 +297,10 @@ func (rb *readback) callAll(recv reflect.Value, ctx *callCtx) {
 	}
 	if recv.Kind() == reflect.Ptr && recv.IsNil() {
 		return // methods on nil pointers are not read access to something that came back
+	}
+	if rb.byType != nil {
+		c0 := rb.calls
+		defer func() { rb.byType[t.String()] += rb.calls - c0 }()
 	}
 	curEntry.Store(ctx.entry)
 	noMods := guardRootNotModule && t == entryType && !rootIsModule(recv.Interface().(*yang.Entry))
@@ -516,11 +522,19 @@ func (rb *readback) entryWriters(e *yang.Entry) {
 // fields hold, and queues the entries kept beside its children.
 func (rb *readback) entry(e *yang.Entry, depth int, full bool) {
 	ctx := &callCtx{entry: e, noWrite: true}
+	pool := rb.findPool(e, e.Path())
 	if full && rb.findLeft > 0 {
-		ctx.find = rb.findPool(e, e.Path())
-		rb.findLeft -= len(ctx.find)
+		// the first entries of the main walk and of the walk beside it: the whole pool
+		rb.findLeft--
+		ctx.find = pool
 	} else {
-		ctx.find = []string{".", "..", "x][", "x[k=1]", "]k["}
+		// the others: five fixed paths and a window of twelve that moves through the pool from entry to entry,
+		// so that every member of the family is tried on some entry of every history with a dozen entries or more
+		ctx.find = append(make([]string, 0, 17), pool[0], "..", "x][", "x[k=1]", "]k[")
+		for i := 0; i < 12; i++ {
+			ctx.find = append(ctx.find, pool[(rb.findRot+i)%len(pool)])
+		}
+		rb.findRot += 12
 	}
 	rb.callAll(reflect.ValueOf(e), ctx)
 	rb.fields(reflect.ValueOf(e).Elem(), e, 0)
@@ -724,6 +738,24 @@ func (rb *readback) stmt(s *yang.Statement, depth int) (height int) {
 // ---------------------------------------------------------------------------------------------
 // resolved types
 
+type rangeKey struct {
+	p uintptr
+	n int
+}
+
+var seenRange = map[rangeKey]bool{}
+
+// rangeIsShared: the range is one of the package's own (they outlive the history, so the address is
+// never reused for another range).
+func rangeIsShared(r yang.YangRange) bool {
+	for _, b := range []yang.YangRange{yang.Int8Range, yang.Int16Range, yang.Int32Range, yang.Int64Range, yang.Uint8Range, yang.Uint16Range, yang.Uint32Range, yang.Uint64Range} {
+		if len(b) > 0 && len(r) > 0 && &b[0] == &r[0] {
+			return true
+		}
+	}
+	return false
+}
+
 // ytype calls the methods of a resolved type and of what it holds: the range and length
 // restrictions with their bounds, the enumeration and bit tables (names and values as arguments),
 // recursively over the members of a union and the root.
@@ -761,6 +793,17 @@ func (rb *readback) ytype(t *yang.YangType, e *yang.Entry, depth int) {
 		rb.callAll(reflect.ValueOf(en), c)
 	}
 	for _, rg := range []yang.YangRange{t.Range, t.Length} {
+		// the ranges of the built-in types are package variables shared by every type of every history:
+		// once per child process
+		if len(rg) > 0 {
+			k := rangeKey{reflect.ValueOf(rg).Pointer(), len(rg)}
+			if seenRange[k] {
+				continue
+			}
+			if len(seenRange) < 4096 {
+				seenRange[k] = rangeIsShared(rg)
+			}
+		}
 		c := &callCtx{entry: e}
 		if len(rg) > 0 {
 			c.same = append(c.same, reflect.ValueOf(rg[:1]), reflect.ValueOf(rg[len(rg)-1:]))
